@@ -76,6 +76,15 @@ def shapes(tier, seed):
                     add(("mat", node), p, "gen")
                 if d <= 1 and base == X:
                     add(("chain", node, _rename(node)), _double(p), "seq")
+    # a user-defined operation (RowFilter is a documented extension point; the engine subclass implements the documented hook by
+    # executing the target it is handed) above eager and lazy operations
+    for d in (1, 2):
+        for labs, node, p in templates.unary_sequences(X, LEAVES, d, "std", slice_hi=4, labels=("sort a", "sort b,-a", "dedup", "sel a>k", "slice s:e", "calc d")):
+            for payload in ("seq", "gen"):
+                add(("cust", node), p, payload)
+            add(("dedup", ("cust", node)), p, "gen")
+            add(("mat", ("cust", node)), p, "seq")
+            add(("cust", ("mat", node)), p, "gen")
     for f, second in later_pairs():
         for payload in ("seq", "map"):
             out.append({"pair": (f, second), "prog": second, "params": {"$k1": [None, None]} if "$k1" in repr((f, second)) else {}, "cons": [],
